@@ -60,8 +60,12 @@ def gen_ring(rng, n):
     return [f"ring {rng.below(1 << 30)} 400" for _ in range(n)]
 
 
-def common_params(rng, strat, ind):
+def common_params(rng, strat, ind, light=False):
     individuals = rng.choice([4, 4, 5, 6, 8, 12, 20, 33, 60])
+    if light and individuals == 60 and not rng.chance(0.34):
+        # quick tier, whole runs: the monitor re-observes the whole population after every replacement, a run
+        # costs ~ population^2 per generation; the largest population is kept but made rarer (thorough: full share)
+        individuals = 16
     # tournament_size = 1 ("selecting individuals at random"): recombination picks the mate itself
     # (fix 295a059; before, recombination::base / de read parent[1] of a one-element vector)
     tour = rng.choice([1, 2, 2, 3, 4, individuals, min(individuals, 7)])
@@ -112,11 +116,23 @@ def gen_comp(rng, n, count):
     return out
 
 
+# the shapes of shake functor handed to evolution::run(run_count, shake) (see harness/c06_run.cc): the evaluator's
+# score depends on data the functor replaces.  `none` = run(run_count), the library's own never-shaking lambda.
+SHAKES = ["none", "none", "none", "never", "always", "gen0", "gen0", "every", "every", "later", "later", "same"]
+
+
+def shake_params(rng, p, shapes=SHAKES):
+    p["shake"] = rng.choice(shapes)
+    if p["shake"] in ("every", "later", "same"):
+        p["shake_k"] = rng.choice([1, 2, 2, 3])
+
+
 def gen_runs(rng, n, big):
     out = []
     for i in range(n):
         strat, ind = COMBOS[i % len(COMBOS)]
-        p = common_params(rng, strat, ind)
+        p = common_params(rng, strat, ind, light=not big)
+        shake_params(rng, p)
         p["generations"] = rng.choice([1, 2, 3, 5]) if not big else rng.choice([3, 6, 10])
         if strat == "alps":
             p["generations"] = rng.choice([4, 6, 9]) if not big else rng.choice([8, 12, 20])
@@ -145,6 +161,8 @@ def gen_search(rng, n):
              "open_tournament": rng.choice([0, 1]), "open_mate_zone": rng.choice([0, 1]),
              "open_elitism": rng.choice([0, 1]), "open_rates": rng.choice([0, 1]), "open_brood": rng.choice([0, 1])}
         # (an open tournament_size is filled with min(5, individuals, mate_zone): fix 85c06c5)
+        # a user defined validation_strategy whose shake() changes the data (search::run hands it to evolution::run)
+        shake_params(rng, p, ["none", "none", "gen0", "every", "later", "always"])
         out.append(fmt("search", p))
     return out
 
@@ -276,6 +294,63 @@ def translated(mod, out, tag):
     return c["stats"], old is not None and old != c["txt"]
 
 
+# --------------------------------------------------------------------------- C++ side
+
+def build_cxx(pool):
+    """libvita (working tree) + the two harnesses.  Same flags, same cache discipline as C.build_harness (content
+    hash of vita's tree, the harness source, harness/common, the flags), but the two harness translation units are
+    COMPILED while the library builds and only linked afterwards: `evolution<T,ES>` & co. are templates, an edit of
+    vita costs a full recompilation of c06_run.cc (~40 s .. 2 min) that need not wait for the library (~12 s .. 2 min)."""
+    import hashlib
+    out = os.path.join(C.BUILD, "asan")
+    os.makedirs(out, exist_ok=True)
+    base = C.cxx_flags("asan")
+    flags = base + ["-I" + os.path.join(C.ROOT, "harness")]
+    tree = C.repo_tree_hash(" ".join(base))           # = the stamp build_vita writes
+    cdir = os.path.join(C.ROOT, "harness", "common")
+    common = sorted(os.path.join(cdir, f) for f in os.listdir(cdir)) if os.path.isdir(cdir) else []
+
+    def key(name):
+        h = hashlib.sha256()
+        h.update(tree.encode())
+        for f in [os.path.join(C.ROOT, "harness", name + ".cc")] + common:
+            h.update(open(f, "rb").read())
+        h.update(" ".join(flags).encode())
+        return "c06-split-build " + h.hexdigest()
+
+    def fresh(path, k):
+        return os.path.exists(path) and os.path.exists(path + ".stamp") and open(path + ".stamp").read() == k
+
+    def compile_tu(name):
+        exe, obj, k = os.path.join(out, name), os.path.join(out, name + ".o"), key(name)
+        if fresh(exe, k) or fresh(obj, k):
+            return
+        t0 = time.time()
+        rc, so, se = C.sh(["g++"] + flags + ["-c", os.path.join(C.ROOT, "harness", name + ".cc"), "-o", obj])
+        if rc != 0:
+            raise RuntimeError(f"harness {name} does not compile:\n{se[-6000:]}")
+        with open(obj + ".stamp", "w") as f:
+            f.write(k)
+        C.log(f"[build] harness {name} (asan) compiled in {time.time() - t0:.1f}s")
+
+    names = [HARNESS_RUN, HARNESS_TUNE]
+    tus = [pool.submit(compile_tu, n) for n in names]
+    lib = C.build_vita("asan")                        # raises RuntimeError when vita does not compile
+    for t in tus:
+        t.result()
+    exes = []
+    for n in names:
+        exe, obj, k = os.path.join(out, n), os.path.join(out, n + ".o"), key(n)
+        if not fresh(exe, k):
+            rc, so, se = C.sh(["g++"] + flags + [obj, "-o", exe, lib])
+            if rc != 0:
+                raise RuntimeError(f"harness {n} does not link:\n{se[-6000:]}")
+            with open(exe + ".stamp", "w") as f:
+                f.write(k)
+        exes.append(exe)
+    return exes
+
+
 # --------------------------------------------------------------------------- running
 
 def run_shard(exe, cases, tag):
@@ -327,21 +402,29 @@ def run(chk, replay=None):
         phases[name] = round(time.time() - t0, 1)
         t0 = time.time()
 
+    # the C++ side (library of the working tree + the two harness translation units) does not depend on the
+    # translators or on Lean: it is built in the background while they run (all three are cached by content hash;
+    # after an edit of vita this overlaps ~1 min of clang / Lean with the g++ build)
+    bg = cf.ThreadPoolExecutor(3)
+    cxx = bg.submit(build_cxx, bg)
     # which parameters do is_valid / tune_parameters touch in the current sources? (clang AST)
-    try:
-        stats, changed = translated(translate_tune, os.path.join(C.LEAN, "Vita", "C06", "Gen.lean"), "gen")
-        chk.cov["translated"] = stats
-        chk.cov["gen_changed_vs_committed"] = bool(changed)
-    except Refuse as e:
-        broken.append("tools/translate_tune.py refuses the current sources: %s" % e)
     # what do evolution::run, summary::clear, the strategy classes and the tune_parameters say in the
-    # current sources?
-    try:
-        stats, changed = translated(translate_evolution, os.path.join(C.LEAN, "Vita", "C06", "GenEvo.lean"), "genevo")
-        chk.cov["translated_evolution"] = stats
-        chk.cov["genevo_changed_vs_committed"] = bool(changed)
-    except Refuse as e:
-        broken.append("tools/translate_evolution.py refuses the current sources: %s" % e)
+    # current sources?   (the two translators run side by side)
+    with cf.ThreadPoolExecutor(2) as ex:
+        ft = ex.submit(translated, translate_tune, os.path.join(C.LEAN, "Vita", "C06", "Gen.lean"), "gen")
+        fe = ex.submit(translated, translate_evolution, os.path.join(C.LEAN, "Vita", "C06", "GenEvo.lean"), "genevo")
+        try:
+            stats, changed = ft.result()
+            chk.cov["translated"] = stats
+            chk.cov["gen_changed_vs_committed"] = bool(changed)
+        except Refuse as e:
+            broken.append("tools/translate_tune.py refuses the current sources: %s" % e)
+        try:
+            stats, changed = fe.result()
+            chk.cov["translated_evolution"] = stats
+            chk.cov["genevo_changed_vs_committed"] = bool(changed)
+        except Refuse as e:
+            broken.append("tools/translate_evolution.py refuses the current sources: %s" % e)
     lap("translate")
     ok, msg = chk.prove(PROP, [PROP, DRIVER])
     drv_ok = os.path.exists(C.driver_path(DRIVER)) and ok
@@ -351,9 +434,10 @@ def run(chk, replay=None):
         drv_ok = ok2
 
     lap("prove")
-    C.build_vita("asan")
-    with cf.ThreadPoolExecutor(2) as ex:          # the two translation units compile in parallel
-        exes = list(ex.map(lambda n: C.build_harness(n, "asan"), [HARNESS_RUN, HARNESS_TUNE]))
+    try:
+        exes = cxx.result()          # (raises what build_vita / build_harness raised)
+    finally:
+        bg.shutdown(wait=False)
     exe_for = lambda case: exes[0] if case.split()[0] in ("comp", "run", "search") else exes[1]
 
     lap("build")
@@ -375,7 +459,7 @@ def run(chk, replay=None):
         cases += gen_ring(rng, 20 if not thorough else 200)
         cases += gen_tune(rng, 1500 if not thorough else 20000)
         cases += gen_comp(rng, 300 if not thorough else 3000, 100 if not thorough else 200)
-        cases += gen_runs(rng, 420 if not thorough else 3000, thorough)     # each case = 1..3 runs on one object
+        cases += gen_runs(rng, 300 if not thorough else 3000, thorough)     # each case = 1..3 runs on one object
         cases += gen_search(rng, 40 if not thorough else 400)
 
     # ---- harness (sharded) + driver ----------------------------------------
@@ -433,6 +517,7 @@ def run(chk, replay=None):
                     chk.count(f"{kind}:elitism={kv['elitism']}")
                     if kind in ("run", "search"):
                         chk.count(f"{kind}:runs={kv.get('runs', '1')}")
+                        chk.count(f"{kind}:shake={kv.get('shake', 'none')}")
                     if kind == "comp":
                         chk.count("comp:what=" + kv["what"])
             chk.seen((kind, req), nontrivial=(rk not in ("cfg", "noop")))
@@ -444,6 +529,8 @@ def run(chk, replay=None):
             if rk == "state":
                 t = req.split(" ", 5)
                 chk.count("state:" + t[1])
+                if t[1] == "shake":
+                    chk.count("shake:at-gen0" if t[2] == "0" else "shake:at-gen>0")
                 if t[1] == "restart":
                     chk.count("restart:prev_last_imp>0" if prev_state.get((k, ci), 0) > 0 else "restart:prev_last_imp=0")
                 prev_state[(k, ci)] = int(t[3])
